@@ -16,6 +16,8 @@ PROP = "C23"
 ENGINE = "E3-gen-history"
 
 SEAMDIR = os.path.dirname(os.path.abspath(__file__))
+# former grammar guard for finding F6 (no break/continue/return lexically inside a finally clause); SIMKIT_GUARD=F6 re-enables it
+GUARD_F6 = "F6" in os.environ.get("SIMKIT_GUARD", "").split(",")
 
 
 # --------------------------------------------------------------------------
@@ -94,10 +96,10 @@ class G:
                 self.pk += 1
                 out.append("%sfor %s in range(%d):" % (ind, v, self.rng.randint(1, 3)))
                 out += self.block(depth - 1, ind + "    ", True, in_finally)
-            elif r < 0.80 and in_loop and not in_finally:
+            elif r < 0.80 and in_loop and not (in_finally and GUARD_F6):
                 # quarantine no_jump_out_of_finally (known finding F6): no break/continue/return inside a finally clause
                 out.append("%sif %s: %s" % (ind, self.expr(), self.rng.choice(["break", "continue"])))
-            elif r < 0.85 and not in_finally:
+            elif r < 0.85 and not (in_finally and GUARD_F6):
                 if self.kind == "agen":
                     out.append("%sif %s == 7: return" % (ind, self.expr()))
                 else:
@@ -712,7 +714,7 @@ def check(tier):
                       "stub": ["delegation targets and awaitables (simseam.It / pygen / Aw)", "history part: driver loop instead of an event loop", "asyncio part: real asyncio Task/Future/timeouts/gather on a loop whose selector never blocks and whose clock is virtual"]}
     rep.assumptions = ["__cause__/__context__ of exceptions are not part of the compared trace (not listed by the statement; CPython attaches implementation-specific context when throwing into a finished generator)",
                        "message text of builtin exceptions is not compared, only the type", "CPython 3.12.1 is the reference"]
-    rep.quarantined = ["F6: the body grammar emits no break/continue/return lexically inside a finally clause (no_jump_out_of_finally)", "F5: throw(StopIteration) is skipped (in model and SUT alike) when the model object is un-started or delegating to an object without throw(); counted in probes.quarantined_F5_throws"]
+    rep.quarantined = ["F5: throw(StopIteration) is skipped (in model and SUT alike) when the model object is un-started or delegating to an object without throw(); counted in probes.quarantined_F5_throws"]
     budget = core.env_budget(50 if tier == "quick" else 900)
     viol, mods = explore(rep, seed, tier, "base", budget=budget * 0.7)
     modmap = {m["name"]: m for m in mods}
